@@ -130,9 +130,15 @@ def check_after(sched, want_members, want_req, want_up, info):
         fail("C18: check_cycles() is False after %s" % info["ops"][-1], info)
 
 
-def surgery_harness(name, n, nops, ops, perm_mode="id", maxk=2, variants=True, warm=False, sequence=False):
+def surgery_harness(name, n, nops, ops, perm_mode="id", maxk=2, variants=True, warm=False, sequence=False,
+                    empty_node=False):
     def fn(api):
         jobs = make_jobs(api, n, perm_mode)
+        if empty_node:
+            # one of the nodes may be an empty nested scheduler (a job like any other, but falsy)
+            k = api.choice("empty_sched_node", n + 1)
+            if k < n:
+                jobs[k] = GSched("j%d" % k, jobs[k]._vh)
         for i, a in enumerate(jobs):
             for b in jobs[i + 1:]:
                 if api.flag("e_%s_%s" % (a, b)):
@@ -162,6 +168,8 @@ def harnesses(tier):
         return [surgery_harness("dag4-one-op", 4, 1, ["bypass", "keep_only", "between"], "id", 2, False),
                 surgery_harness("dag3-two-ops", 3, 2, ["bypass", "keep_only", "between"], "id", 1, False),
                 surgery_harness("dag4-between-iterators", 4, 1, ["between"], "id", 1, True),
+                surgery_harness("dag3-with-an-empty-nested-scheduler", 3, 1, ["bypass", "keep_only", "between"], "id", 2,
+                                False, empty_node=True),
                 surgery_harness("dag4-queries-then-two-bypasses", 4, 2, ["bypass"], "id", 1, False, warm=True),
                 surgery_harness("dag3-queries-bypass-add-between", 3, 3, ["bypass", "add", "between"], "id", 1, False,
                                 warm=True, sequence=True)]
